@@ -30,9 +30,15 @@ ACTIVES = [None, '"""', "```"]
 
 def mk(line, st, line_no=1):
     tm = TokenMatcher(st.default)
+    cur = st.default
     for op in st.history:
         if op[0] == "lang":
             tm.match_Language(Token(GherkinLine("# language: " + op[1] + chr(10), 1), {"line": 1}))
+            cur = op[1]
+        elif op[0] == "touchstep":
+            # an earlier document had a step line written in the dialect then in force (lazily built per-dialect tables get built)
+            kw = linespec.master_table()[cur]["given"][-1]
+            tm.match_StepLine(Token(GherkinLine("  " + kw + "something" + chr(10), 1), {"line": 1}))
         elif op[0] == "open":
             # an earlier document ended inside a doc string opened by this (indented) delimiter line
             tm.match_DocStringSeparator(Token(GherkinLine(op[1] + chr(10), 1), {"line": 1}))
@@ -46,6 +52,7 @@ def mk(line, st, line_no=1):
                         pass
         else:
             tm.reset()
+            cur = st.default
     if not st.history:
         # a state given directly (no history): put the matcher into it; with a history the matcher is left exactly as the history left it
         tm._active_doc_string_separator = st.active
